@@ -34,6 +34,8 @@ SPEC['explanation'] += ' T10.empty: without line breaks only a non-empty text is
 SPEC['decided'] += ['empty text yields nothing', 'deferred emission guard', 'decode only complete lines', 'flush before fstat']
 SPEC['explanation'] += ' T19t: JSONLIterator recognises an omitted rel_seek by identity (0.0 is a position).'
 SPEC['decided'] += ['rel_seek 0.0 is data']
+SPEC['explanation'] += ' T20.nocache: the functions that build a fresh list / dict / generator per call are not memoised.'
+SPEC['decided'] += ['results are fresh per call (no memoising decorator)']
 MANIFEST = {
     'technique': 'regex-AST extraction of the line-ending alternation compared with a frozen boundary table; delegation and guard-shape checks',
     'text': ('Decides that the set of recognised line breaks is exactly right (the \\x2028 typo class of defect), that '
@@ -44,6 +46,8 @@ MANIFEST = {
 
 
 def run(ctx):
+    from rules.common import check_not_memoised as _cnm
+    _cnm(ctx, [ctx.program.func(n) for n in ['strutils.iter_splitlines', 'jsonutils.reverse_iter_lines']])
     prog = ctx.program
     pat, flags, node, attr = module_regex(prog, 'strutils', '_line_ending_re')
     mod = prog.module('strutils')
